@@ -86,6 +86,8 @@ def build_inputs(tier: str):
             cases.append((f"stmt{i}:{lay}", mutate.layout(s, lay, r), "exec", ["snippet", lay]))
     for i, s in enumerate(corpus.arg_order_variants() + corpus.string_prefix_variants()):
         cases.append((f"srcform{i}", s, "exec", ["source-form"]))
+    for i, s in enumerate(corpus.FINAL_LINE_FORMS):
+        cases.append((f"finalline{i}", s, "exec", ["final-line"]))
     for i, s in enumerate(corpus.PY_EXPRS):
         cases.append((f"pexpr{i}", s, "eval", ["snippet-expr"]))
     for name, s in corpus.test_data_files():
